@@ -691,6 +691,24 @@ export function gen(rng, params, mode) {
       const extra = ["a", "b", "c", { tag: "a" }, { tag: "c" }, 1, null];
       return [A("split"), A(String(counter++)), p2, [["entry.ts", single]], [...vals, ...extra].map(encVal), sp.proj, multi, sp.expect, A("enum")];
     }
+    if (rng.chance(1, 8) && isAtom(sp.expect, "ok")) {
+      // a module whose DEFAULT EXPORT IS AN EXPRESSION that mentions constants of its own module, imported by a module that has
+      // a constant of the same name with another value: the expression is typed in the scope of the module it is written in
+      // (value modules are outside the Lean module model: marker `enum`, outcome and bits compared only)
+      const kind = rng.below(4);
+      const expr = (b) => (kind === 0 ? `{ x: ${b}, y: "s" } as const` : kind === 1 ? `[${b}, "s"] as const` : kind === 2 ? `${b}.a` : `{ p: { q: ${b}.a }, r: ${b} } as const`);
+      const addExport = (src, t) => src.replace(/ \}>\(\);\n$/, `, EN: ${t} }>();\n`);
+      const use = rng.pick(["typeof cfg", "{ c: typeof cfg }", "typeof cfg | typeof base"]);
+      const single = `const base_lib = { a: 1 } as const;\nconst base = { a: 2 } as const;\nconst cfg = ${expr("base_lib")};\n` + addExport(tsOfProg(p), use);
+      const viaBarrel = rng.chance(1, 3);
+      const imp = viaBarrel ? 'import { cfg } from "./barrel_v";' : rng.chance(1, 2) ? 'import cfg from "./cfgd_v";' : 'import { default as cfg } from "./cfgd_v";';
+      const lib = `const base = { a: 1 } as const;\nexport default ${expr("base")};\n`;
+      const more = viaBarrel ? [["barrel_v.ts", 'export { default as cfg } from "./cfgd_v";\n']] : [];
+      const multi = sp.files.map(([n, t]) => (n === "entry.ts" ? [n, imp + "\nconst base = { a: 2 } as const;\n" + addExport(t, use)] : [n, t])).concat([["cfgd_v.ts", lib], ...more]);
+      const p2 = [p[0], p[1], [...p[2], ["EN", A("unknown")]]];
+      const extra = [{ x: { a: 1 }, y: "s" }, { x: { a: 2 }, y: "s" }, [{ a: 1 }, "s"], [{ a: 2 }, "s"], 1, 2, { a: 1 }, { a: 2 }, { p: { q: 1 }, r: { a: 1 } }, { p: { q: 2 }, r: { a: 2 } }, { c: 1 }, { c: 2 }, { c: { x: { a: 1 }, y: "s" } }, { c: { x: { a: 2 }, y: "s" } }, null];
+      return [A("split"), A(String(counter++)), p2, [["entry.ts", single]], [...vals, ...extra].map(encVal), sp.proj, multi, sp.expect, A("enum")];
+    }
     return [A("split"), A(String(counter++)), p, [["entry.ts", tsOfProg(p)]], vals.map(encVal), sp.proj, sp.files, sp.expect, sp.breakKind];
   }
   if (mode === "prog-strict") {
